@@ -199,6 +199,13 @@ def rule_load(progs, tier, name="YAMLLOAD", n_quick=160, n_thorough=1500):
     return out
 
 
+EDGE_INT_TREES = [
+    ("ints-beyond-2^53", {"a": 9007199254740993, "b": -9007199254740993, "c": [9007199254740992, 9007199254740995, 1234567890123456789]}),
+    ("ints-i64-edges", {"max": 9223372036854775807, "min": -9223372036854775808, "near": [9223372036854775806, -9223372036854775807]}),
+    ("ints-round-numbers", [0, -0, 10, 100, 1000000, 10000000000000000000000 // 10**6, 4503599627370497, 100000000000000000]),
+]
+
+
 def rule_load_json(progs, tier, name="YAMLLOAD(json)", n_quick=50, n_thorough=600):
     """C26, identity clause: the same tree supplied as JSON text (compact and indented; non-ASCII raw
     and \\u-escaped) goes through the route yq uses for JSON input (`YamlIndex::build` +
@@ -211,12 +218,18 @@ def rule_load_json(progs, tier, name="YAMLLOAD(json)", n_quick=50, n_thorough=60
         I = Interp(P, max_steps=80000000, max_depth=300)
         n = n_thorough if tier == "thorough" else n_quick
         fam, dropped = yamlgen.streams(n, seed0=9000, max_depth=3, want_selfcheck=False)
+        # integer leaves at the edges of what a double / an i64 holds: the generator's integers are small
+        fam = [(nm, None, [tr]) for nm, tr in EDGE_INT_TREES] + fam
         nrun = 0
         flip = 0
         crashed = False
         for seed, _text, docs in fam:
             tree = docs[0]
-            for vname, t in (("compact", json.dumps(tree, ensure_ascii=False, separators=(",", ":"))), ("indented-ascii", json.dumps(tree, indent=2) + "\n")):
+            variants = [("compact", json.dumps(tree, ensure_ascii=False, separators=(",", ":"))), ("indented-ascii", json.dumps(tree, indent=2) + "\n")]
+            if isinstance(seed, str):
+                # the same text read as (flow) YAML, without the JSON-sourced mark
+                variants.append(("as-yaml", json.dumps(tree) + "\n"))
+            for vname, t in variants:
                 flip ^= 1
                 I.features = {"avx2": bool(flip), "bmi2": bool(flip), "sse4.1": True, "sse4.2": True, "ssse3": True, "sse2": True}
                 for f in ("util::simd::x86::has_fast_bmi2", "bits::scan::has_avx2"):
@@ -224,10 +237,10 @@ def rule_load_json(progs, tier, name="YAMLLOAD(json)", n_quick=50, n_thorough=60
                 I.overrides["yaml::simd::x86::avx2_enabled"] = lambda a, f=flip: f
                 I.overrides["util::simd::escape::avx2_enabled"] = lambda a, f=flip: f
                 I.statics.clear()
-                key = "%s:tree-%d-%s" % (name, seed, vname)
+                key = "%s:tree-%s-%s" % (name, seed, vname)
                 nrun += 1
                 try:
-                    kind, val = load(I, t.encode("utf-8"), json_sourced=True)
+                    kind, val = load(I, t.encode("utf-8"), json_sourced=(vname != "as-yaml"))
                 except Panic as e:
                     res.bad(key, "the loader panics on the JSON text %r: %s" % (t[:120], e))
                     continue
